@@ -63,6 +63,7 @@ theorem fillInLet_meaning (ρ : Env) (ov : List (String × Num)) (c c' : Circuit
   exact Rebuilt_meaning (P := fun _ => True)
     (fun v v' b _ hf => key v v' b hf)
     (fun v v' b _ hf => ⟨(key v v' b hf).2, fun hn => letVal_none (hn ▸ hf)⟩)
+    (fun _ v v' b _ hf => key v v' b hf)
     hr hbs hB (allValsList_true bs) (fun m hm => ⟨hw.macros m hm, allVals_true m.body⟩)
 
 end Jaqal.Passes
